@@ -125,6 +125,30 @@ def refusal_guards(body, count_param=2):
     return out
 
 
+def helper_refusal_guards(facts, body, count_param=2):
+    """[(call_bb, return target)] for calls to a crate-local function that returns normally only behind the ok edge of a
+    count <= state-derived-amount comparison over ITS parameters (`self.assert_room_to_produce(&s, n)`), where the actual
+    argument in the count position is this body's count parameter"""
+    out = []
+    for bb, t in body.calls():
+        if t.get("t") is None:
+            continue
+        for q in Body.callee_qs(t):
+            for hb in facts.by_q.get(q, []):
+                if hb is body or hb.kind == "closure":
+                    continue
+                rets = hb.return_blocks()
+                if not rets:
+                    continue
+                for cp in range(1, len(t["args"]) + 1):
+                    if not _is_param(body.operand_expr(t["args"][cp - 1]), count_param):
+                        continue
+                    gs = refusal_guards(hb, count_param=cp)
+                    if any(all(must_pass_edge(hb, r, g) for r in rets) for g in gs):
+                        out.append((bb, t["t"]))
+    return out
+
+
 def rule_r1(facts, col):
     """refusal dominates mutation of the ring positions"""
     for body in facts.bodies:
@@ -133,7 +157,7 @@ def rule_r1(facts, col):
         ws = ring_writes(body)
         if not ws:
             continue
-        guards = refusal_guards(body)
+        guards = refusal_guards(body) + helper_refusal_guards(facts, body)
         for bb, fld, s in ws:
             key = "%s:%s" % (body.q, fld)
             good = [g for g in guards if must_pass_edge(body, bb, g)]
@@ -199,6 +223,47 @@ def rule_r2(facts, col, rule_id="C01.R2"):
             if blocked:
                 gates.append(s)
         good = [g for g in gates if all(body.dominates(g, a) for a in aggbbs)]
+        if not good:
+            # the test may live in a helper returning Result: `check_whole_elements(size, member_size)?` - the helper has the
+            # gate on ITS parameter, the failing edge cannot reach an Ok return, the actual argument is this body's size
+            # parameter, and the aggregate is only built behind the Ok edge of the call's result
+            for cbb, t in body.calls():
+                for q in Body.callee_qs(t):
+                    for hb in facts.by_q.get(q, []):
+                        if hb is body or hb.kind == "closure" or "Result" not in hb.locals[0]["ty"]:
+                            continue
+                        okrets = [b3 for b3, si, e in assigns_to_return(hb)
+                                  if e.k == "agg" and e.adt == "std::result::Result" and e.variant == "Ok"]
+                        if not okrets:
+                            continue
+                        for hs in sorted(hb.reachable(0)):
+                            ht = hb.term(hs)
+                            if ht["k"] != "switch" or from_debug_assert(ht.get("sp")):
+                                continue
+                            pidx = None
+                            for x in walk(switch_discr_expr(hb, hs)):
+                                if x.k == "bin" and x.op == "Rem" and peel(x.a, through_try=False).k == "param":
+                                    pidx = peel(x.a, through_try=False).idx
+                                if x.k == "call" and (x.q or "").endswith("is_multiple_of") and x.args and peel(x.args[0], through_try=False).k == "param":
+                                    pidx = peel(x.args[0], through_try=False).idx
+                            if pidx is None or pidx > len(t["args"]):
+                                continue
+                            if peel(body.operand_expr(t["args"][pidx - 1]), through_try=False).k != "param":
+                                continue
+                            hblocked = [tgt for tgt, v in switch_edges(hb, hs) if not (set(okrets) & hb.reachable(tgt))]
+                            if not hblocked:
+                                continue
+                            # in the caller: the aggregate only behind the Continue/Ok edge of this call's result
+                            for s2 in sorted(body.reachable(0)):
+                                t2 = body.term(s2)
+                                if t2["k"] != "switch":
+                                    continue
+                                d2 = switch_discr_expr(body, s2)
+                                if not any(getattr(x, "bb", None) == cbb and x.k == "call" for x in walk(d2)):
+                                    continue
+                                blocked2 = [tgt for tgt, v in switch_edges(body, s2) if not (set(aggbbs) & body.reachable(tgt))]
+                                if blocked2 and all(body.dominates(s2, a) for a in aggbbs):
+                                    good.append(s2)
         if good:
             col.ok(rule_id, key, body.where(good[0]), "Buffer{..} only built behind a (size % element size) test")
         else:
